@@ -222,3 +222,95 @@ def _target_width(t, sw, probs, where):
         return None if any(w is None for w in ws) else sum(ws)
     probs.append(f"{where}: empty connection target")
     return None
+
+
+# ---------------------------------------------------------------------------------------
+def flat_bits(name, width):
+    """netlister naming of the bits of a port, most significant first"""
+    return [name] if width == 1 else [f"{name}_{k}" for k in reversed(range(width))]
+
+
+def spice_nets(text, pkg, topname=None):
+    """Second reading: the spice netlist text (positional connections against .SUBCKT port order).
+    Returns the leaf-level partition over (path, port, bit) like pkg_nets; `pkg` is used only for the
+    port lists (name, width, order) of external modules / primitives, which spice does not declare."""
+    def nl(name):  # netlisters name subcircuits by the last path segment, sanitised
+        name = name.split(".")[-1]
+        return "".join(ch if (ch.isalnum() or ch == "_") else "_" for ch in name)
+
+    mods = {nl(m.name): m for m in pkg.modules}
+    top = nl(topname or pkg.modules[-1].name)
+    prims = _prim_ports()
+    exts = {e.name.name: e for e in pkg.ext_modules}
+    # parse
+    subckts, cur = {}, None
+    lines = [l.rstrip() for l in text.splitlines()]
+    i = 0
+    while i < len(lines):
+        l = lines[i].strip()
+        if l.upper().startswith(".SUBCKT"):
+            cur = {"name": l.split()[1], "ports": [], "insts": []}
+            subckts[cur["name"]] = cur
+            if i + 1 < len(lines) and lines[i + 1].startswith("+"):
+                cur["ports"] = lines[i + 1][1:].split()
+                i += 1
+        elif l.upper().startswith(".ENDS"):
+            cur = None
+        elif cur is not None and l and not l.startswith(("*", "+", ".")):
+            inst = {"name": l.split()[0], "cont": []}
+            j = i + 1
+            while j < len(lines) and lines[j].startswith("+"):
+                inst["cont"].append(lines[j][1:].split("*")[0].split())
+                j += 1
+            cur["insts"].append(inst)
+            i = j - 1
+        i += 1
+    uf = UF()
+    terms = []
+
+    def walk(sname, path, binding):
+        """binding: local flat net name -> global node"""
+        pm = mods[sname]
+        def node(n):
+            if n not in binding:
+                binding[n] = (path, "net", n)
+            return binding[n]
+        for k, inst in enumerate(subckts[sname]["insts"]):
+            pinst = pm.instances[k]
+            assert inst["name"][1:] == pinst.name, ("instance order/name", inst["name"], pinst.name)
+            nets = inst["cont"][0] if inst["cont"] else []
+            ipath = path + (pinst.name,)
+            which = pinst.module.WhichOneof("to")
+            if which == "local":
+                child = nl(pinst.module.local)
+                cports = subckts[child]["ports"]
+                assert len(cports) == len(nets), ("positional arity", pinst.name, cports, nets)
+                walk(child, ipath, {cp: node(n) for cp, n in zip(cports, nets)})
+            else:
+                key = (pinst.module.external.domain, pinst.module.external.name)
+                if key[1] in exts and key[0] == exts[key[1]].name.domain:
+                    e = exts[key[1]]
+                    sw = {s.name: s.width for s in e.signals}
+                    plist = [(p.signal, sw[p.signal]) for p in e.ports]
+                else:
+                    plist = [(p, 1) for p in prims[key]]
+                flat = [(p, b) for p, w in plist for b in reversed(range(w))]
+                assert len(flat) == len(nets), ("positional arity", pinst.name, flat, nets)
+                for (p, b), n in zip(flat, nets):
+                    terms.append((ipath, p, b))
+                    uf.union((ipath, p, b), node(n))
+
+    ptop = mods[top]
+    sw = {s.name: s.width for s in ptop.signals}
+    binding = {}
+    for p in ptop.ports:
+        w = sw[p.signal]
+        for b, fn in zip(reversed(range(w)), flat_bits(p.signal, w)):
+            terms.append(((), p.signal, b))
+            binding[fn] = ((), p.signal, b)
+    assert [x for p in ptop.ports for x in flat_bits(p.signal, sw[p.signal])] == subckts[top]["ports"], "top port order"
+    walk(top, (), binding)
+    groups = {}
+    for t in terms:
+        groups.setdefault(uf.find(t), set()).add(t)
+    return {frozenset(g) for g in groups.values()}
